@@ -19,6 +19,10 @@ CHECKS = {
  'C04': dict(text='For every Zobrist table: HashKey::init equals the definition of the key, and every do_move/do_null_move changes each key component by exactly the cells of what '
              'changed (pawn part only for pawns), hence incremental key = scratch key on every history (induction) and equal positions have equal keys.',
              note='PIECE_HASH via indicator encoding justified by a syntactic XOR-linearity check on the IR; collision odds of random tables outside the claim', ref='DESIGN.md 2/C04'),
+ 'C07': dict(text='is_in_check is proved equal to the rules reference for both colours on symbolic positions; is_checkmate/is_stalemate are proved to be exactly (no generated move) and (in check / not); '
+             'is_repeated/threefold_repetition are proved against arbitrary key histories (earlier occurrences, the current entry skipped); rule50 for all 256 clock values; '
+             'enough_material for all piece-count vectors (0..10 per kind); is_draw is the disjunction. A lemma query proves the two formulations of the reference attack test equal on every board.',
+             note='keys identify positions (C04); history maintenance is C02/C03; empty move list means no legal move (C01); history length bounded by the unwinding (12 quick / 100 thorough)', ref='DESIGN.md 2/C07'),
  'C11': dict(text='Every slider lookup (bishop, rook, queen; 64 squares) is proved equal to the ray walk for ALL 2^64 occupancies by the solver, on the tables the '
              'real init() computes; leaper/line/castling tables and shift<>/pawn_attacks are proved equal to their geometric definitions for symbolic squares/bitboards. '
              'No bound other than the fixed trip counts of the reference loops.',
@@ -31,6 +35,13 @@ CHECKS = {
  'C13': dict(text='Each of the 17 specialised endgame evaluators (applies + EndgameBase::score through a harness-built vtable) gives the same score for a position with White as strong '
              'side and for its colour mirror with Black as strong side, for all placements of the listed material and both sides to move.',
              note='general (non-endgame) evaluator terms not yet covered; endgame::score dispatch loop (std::vector<unique_ptr>) not encoded', ref='DESIGN.md 2/C13'),
+ 'C18': dict(text='PolyglotBook::hash is proved to have the structure of the Polyglot key (one piece-square random per piece, castling randoms per right, en-passant random only with an adjacent '
+             'capturing pawn of the side to move, turn random iff White to move) for symbolic positions; the nine published vectors are re-derived through the translated code; '
+             'the 781 constants are compared with a digest of the pinned commit.',
+             note='no independent copy of Random64 exists offline: constant VALUES are only covered by the nine vectors and by the digest of the pinned tree', ref='DESIGN.md 2/C18'),
+ 'C19': dict(text='decode_move is proved against its specification for every stored move and board; the weighted random policy is proved to return exactly the entry whose cumulative-weight '
+             'interval contains the sample (hence probability proportional to weight and never a zero-weight move) for every sample and weight vector; the best policy returns a maximal-weight entry.',
+             note='the file reader loop (std::ifstream/std::map code) is NOT covered; map lookup and RNG are stubbed; entries per key bounded (3 quick / 5 thorough)', ref='DESIGN.md 2/C19'),
  'C15': dict(text='move_is_capture, move_is_quiet and move_gives_check are proved to agree with the outcome of playing the move in the rules reference for every legal move '
              '(promotions, en passant, castling, discovered checks) of every placement of the listed material.',
              note='slider_attack<> by contract (C11); material bound', ref='DESIGN.md 2/C15'),
